@@ -1,14 +1,22 @@
 //! Kani harnesses over the public API of the real emit crates (path dependencies on /repo).
 //! Every harness ends with `kani::cover!(true)` (vacuity guard). Harnesses are registered in
 //! ../harnesses.json with the property they serve and whether they are complete or bounded.
+//! Without cfg(kani) the same bodies compile against the replay shim (../shim.rs): `kani::any()` is
+//! answered from the concrete values of a Kani counterexample, so a counterexample is re-executed
+//! against the real crates (see ../replay).
 #![allow(unused)]
-#[cfg(kani)]
+#[cfg(not(kani))]
+include!("../../shim.rs");
 mod oracles;
-#[cfg(kani)]
-mod c01_pipeline;
-#[cfg(kani)]
 mod c01_emitters;
-#[cfg(kani)]
-mod c15_codecs;
-#[cfg(kani)]
+mod c01_pipeline;
 mod c03_frames;
+mod c15_codecs;
+#[cfg(not(kani))]
+mod table;
+#[cfg(not(kani))]
+pub use table::run;
+#[cfg(not(kani))]
+pub fn set_values(v: Vec<Vec<u8>>) {
+    kani::set_values(v)
+}
